@@ -232,7 +232,13 @@ def same(a, b):
     if a.dtype.kind not in 'fc' or b.dtype.kind not in 'fc':
         return a.shape == b.shape and np.array_equal(a, b)
     # last-bit differences of numpy's SIMD kernels between identical calls (buffer alignment) are not a state change
-    return a.shape == b.shape and bool(np.allclose(a, b, rtol=1e-13, atol=0, equal_nan=True))
+    # (amplified through inverse cdfs of dependent variables up to ~1e-14 relative, see C07): rtol 1e-10, and the same
+    # relative to the result's magnitude for entries that cancel to ~0; a state change moves results by O(1)
+    if a.shape != b.shape:
+        return False
+    fin = np.abs(a[np.isfinite(a)])
+    floor = 1e-10 * float(fin.max()) if fin.size else 0.0
+    return bool(np.allclose(a, b, rtol=1e-10, atol=floor, equal_nan=True))
 
 
 def check_history(case, ctx):
